@@ -21,7 +21,7 @@ impl Scenario for AdaptorsScenario {
         &tree::PROBES
     }
     fn rule(&self) -> &'static str {
-        "case = (frame type of 13, 1..4 primary leaves + signed/gain leaves with drawn kinds and lengths, leaf amplitude, \
+        "case = (frame type of 13 for the tree, of 88 more — every sample type mono and stereo, every channel count 3..=32 — for the statically typed stacks, 1..4 primary leaves + signed/gain leaves with drawn kinds and lengths, leaf amplitude, \
          postfix build program of adaptors (depth <= 6, amplitude bound kept in range), seeded pull / is_exhausted / take / \
          rewrap / owner-pull schedule); non-trivial = at least one fault kind fired and at least one pull executed after \
          some leaf had already been advanced; distinct = hash of (ops, frames observed)"
@@ -33,12 +33,12 @@ impl Scenario for AdaptorsScenario {
         ]
     }
     fn stubs(&self) -> &'static [&'static str] {
-        &["ProbeSignal / ProbeIter leaves, Dyn box for dynamic composition, counted user closures", "reference interpreter over the same tree (frame operations are the trusted base, clip re-stated independently)"]
+        &["ProbeSignal / ProbeIter leaves, Dyn box for dynamic composition, counted user closures", "reference interpreter over the same tree; its frame operations are restated per channel on the raw sample representation (raw.rs), clip included"]
     }
     fn assumptions(&self) -> &'static [&'static str] {
         &[
             "parameters are drawn so that a conservative amplitude bound stays below 0.9 of full scale (the property speaks about in-range results)",
-            "Frame::{scale_amp, offset_amp, add_amp, mul_amp} are the definition of the adaptors' pointwise functions (C03 is not decided here)",
+            "the pointwise functions are those of C01-C03's statements (power-of-two rescale about equilibrium, add through the signed companion, multiply through the float companion with truncation), restated independently in the harness",
         ]
     }
     fn runs(&self, tier: &str) -> u64 {
